@@ -646,13 +646,135 @@ func (f *fctx) opaqueCall(x *ast.CallExpr, b *binding, goVar, method string, e e
 		return val{}, f.errf(x, "%s.%s: %v", sn, method, err)
 	}
 	name := b.coq + "_" + method
+	// a struct parameter of the method is the tuple of its fields
+	for j, t := range ats {
+		if t.k == kStruct {
+			tt, err := f.g.structTupleType(t)
+			if err != nil {
+				return val{}, f.errf(x, "%s.%s: %v", sn, method, err)
+			}
+			ats[j] = tt
+		}
+	}
 	b.used[method] = fnType(rt, ats...)
 	b.order = appendOnce(b.order, method)
-	ss, err := f.args(x, sn+"."+method, ats, x.Args, e)
-	if err != nil {
-		return val{}, err
+	if len(x.Args) != len(ats) {
+		return val{}, f.errf(x, "%s.%s: %d arguments, expected %d", sn, method, len(x.Args), len(ats))
+	}
+	var ss []string
+	for j, a := range x.Args {
+		v, err := f.structArg(a, e)
+		if err != nil {
+			return val{}, err
+		}
+		if v, err = f.coerce(a, v, ats[j]); err != nil {
+			return val{}, err
+		}
+		if !v.t.eq(ats[j]) {
+			return val{}, f.errf(a, "%s.%s: argument %d has type %s, expected %s", sn, method, j+1, v.t.goName(), ats[j].goName())
+		}
+		ss = append(ss, v.s)
 	}
 	return val{s: app(name, ss), t: rt}, nil
+}
+
+// the tuple type standing for a struct value: its fields in declaration order
+func (g *gen) structTupleType(t typ) (typ, error) {
+	i := strings.Index(t.named, ".")
+	q, sn := g.pkgs[t.named[:i]], t.named[i+1:]
+	st := q.structs[sn]
+	if st == nil {
+		return typ{}, fmt.Errorf("struct %s not found", t.named)
+	}
+	var ts []typ
+	for _, fl := range st.Fields.List {
+		ft, err := g.goType(q, q.fileOf[sn], fl.Type)
+		if err != nil {
+			return typ{}, err
+		}
+		if ft.k == kOpaque || ft.k == kStruct {
+			return typ{}, fmt.Errorf("field of type %s in struct %s", ft.named, t.named)
+		}
+		for range fl.Names {
+			ts = append(ts, ft)
+		}
+	}
+	if len(ts) == 1 {
+		return ts[0], nil
+	}
+	return tupType(ts...), nil
+}
+
+// an argument that may be a struct value: a struct parameter c (-> the tuple of all its fields),
+// a literal T{a, b} / &T{a, b} of a struct of this package (-> the tuple), or an ordinary expression
+func (f *fctx) structArg(a ast.Expr, e env) (val, error) {
+	if u, ok := a.(*ast.UnaryExpr); ok && u.Op == token.AND {
+		if cl, ok := u.X.(*ast.CompositeLit); ok {
+			a = cl
+		}
+	}
+	if id, ok := a.(*ast.Ident); ok {
+		if b := e[id.Name]; b != nil && b.flat && b.t.k == kStruct {
+			tt, err := f.g.structTupleType(b.t)
+			if err != nil {
+				return val{}, f.errf(a, "%v", err)
+			}
+			i := strings.Index(b.t.named, ".")
+			q, sn := f.g.pkgs[b.t.named[:i]], b.t.named[i+1:]
+			var vs []string
+			for _, fl := range q.structs[sn].Fields.List {
+				for _, fn := range fl.Names {
+					v, err := f.structField(a, b, id.Name, fn.Name)
+					if err != nil {
+						return val{}, err
+					}
+					vs = append(vs, v.s)
+				}
+			}
+			if len(vs) == 1 {
+				return val{s: vs[0], t: tt}, nil
+			}
+			return val{s: "(" + strings.Join(vs, ", ") + ")", t: tt}, nil
+		}
+	}
+	if cl, ok := a.(*ast.CompositeLit); ok {
+		if tid, ok := cl.Type.(*ast.Ident); ok && f.p.structs[tid.Name] != nil {
+			st := typ{k: kStruct, named: f.p.name + "." + tid.Name}
+			tt, err := f.g.structTupleType(st)
+			if err != nil {
+				return val{}, f.errf(a, "%v", err)
+			}
+			want := []typ{tt}
+			if tt.k == kTup && tt.named == "" && !tt.arr && len(tt.fields) == 0 {
+				want = tt.args
+			}
+			if len(cl.Elts) != len(want) {
+				return val{}, f.errf(a, "%s literal with %d elements", tid.Name, len(cl.Elts))
+			}
+			var vs []string
+			for j, el := range cl.Elts {
+				if _, keyed := el.(*ast.KeyValueExpr); keyed {
+					return val{}, f.errf(a, "keyed %s literal as a value", tid.Name)
+				}
+				v, err := f.expr(el, e)
+				if err != nil {
+					return val{}, err
+				}
+				if v, err = f.coerce(el, v, want[j]); err != nil {
+					return val{}, err
+				}
+				if !v.t.eq(want[j]) {
+					return val{}, f.errf(el, "element of type %s in a %s literal", v.t.goName(), tid.Name)
+				}
+				vs = append(vs, v.s)
+			}
+			if len(vs) == 1 {
+				return val{s: vs[0], t: tt}, nil
+			}
+			return val{s: "(" + strings.Join(vs, ", ") + ")", t: tt}, nil
+		}
+	}
+	return f.expr(a, e)
 }
 
 func appendOnce(l []string, s string) []string {
